@@ -443,4 +443,108 @@ theorem parse_mirror (opt : Bool) (data : Bytes) (T : Tape) (h : parse opt data 
   simp [init] at h3
   exact h3.trans (List.sublist_append_left _ _)
 
+/-! ## the lexeme list exists and is unique -/
+
+theorem lexOne_shrinks {d r : Bytes} {x : Lx} (h : lexOne d = some (x, r)) : r.length < d.length := by
+  unfold lexOne at h
+  cases hr : readId d with
+  | none => simp [hr] at h
+  | some p =>
+    obtain ⟨id, r0⟩ := p
+    have hl := readId_length hr
+    simp only [hr] at h
+    have fx : ∀ (n : Nat) (f : Bytes × Bytes → Lx × Bytes), (∀ q, (f q).2 = q.2) →
+        (split? n r0).map f = some (x, r) → r.length < d.length := by
+      intro n f hf hm
+      cases hs : split? n r0 with
+      | none => simp [hs] at hm
+      | some q =>
+        simp [hs] at hm
+        have := split?_length (h := q.1) (r := q.2) (d := r0) (n := n) (by simpa using hs)
+        have e := hf q; rw [hm] at e; simp at e; rw [e]; omega
+    have st : ∀ (f : Bytes × Bytes → Lx × Bytes), (∀ q, (f q).2 = q.2) →
+        (readString r0).map f = some (x, r) → r.length < d.length := by
+      intro f hf hm
+      cases hs : readString r0 with
+      | none => simp [hs] at hm
+      | some q =>
+        simp [hs] at hm
+        have := readString_length (s := q.1) (rest := q.2) (d := r0) (by simpa using hs)
+        have e := hf q; rw [hm] at e; simp at e; rw [e]; omega
+    have bo : (readBool r0).map (fun p => ((Lx.tok (BTok.bool p.1), p.2) : Lx × Bytes)) = some (x, r) → r.length < d.length := by
+      intro hm
+      cases r0 with
+      | nil => simp [readBool] at hm
+      | cons y ys => simp [readBool] at hm; rw [← hm.2]; simp at hl ⊢; omega
+    have plain : ∀ y : Lx, some (y, r0) = some (x, r) → r.length < d.length := by
+      intro y hm; simp at hm; rw [← hm.2]; omega
+    by_cases c1 : id = L.open_
+    · rw [if_pos c1] at h; exact plain _ h
+    rw [if_neg c1] at h
+    by_cases c2 : id = L.close
+    · rw [if_pos c2] at h; exact plain _ h
+    rw [if_neg c2] at h
+    by_cases c3 : id = L.equal
+    · rw [if_pos c3] at h; exact plain _ h
+    rw [if_neg c3] at h
+    by_cases c4 : id = L.u32
+    · rw [if_pos c4] at h; exact fx _ _ (fun _ => rfl) h
+    rw [if_neg c4] at h
+    by_cases c5 : id = L.u64
+    · rw [if_pos c5] at h; exact fx _ _ (fun _ => rfl) h
+    rw [if_neg c5] at h
+    by_cases c6 : id = L.i32
+    · rw [if_pos c6] at h; exact fx _ _ (fun _ => rfl) h
+    rw [if_neg c6] at h
+    by_cases c7 : id = L.i64
+    · rw [if_pos c7] at h; exact fx _ _ (fun _ => rfl) h
+    rw [if_neg c7] at h
+    by_cases c8 : id = L.f32
+    · rw [if_pos c8] at h; exact fx _ _ (fun _ => rfl) h
+    rw [if_neg c8] at h
+    by_cases c9 : id = L.f64
+    · rw [if_pos c9] at h; exact fx _ _ (fun _ => rfl) h
+    rw [if_neg c9] at h
+    by_cases c10 : id = L.bool
+    · rw [if_pos c10] at h; exact bo h
+    rw [if_neg c10] at h
+    by_cases c11 : id = L.quoted
+    · rw [if_pos c11] at h; exact st _ (fun _ => rfl) h
+    rw [if_neg c11] at h
+    by_cases c12 : id = L.unquoted
+    · rw [if_pos c12] at h; exact st _ (fun _ => rfl) h
+    rw [if_neg c12] at h
+    exact plain _ h
+
+/-- every byte string has a lexeme list … -/
+theorem lexes_exists : ∀ (n : Nat) (d : Bytes), d.length ≤ n → ∃ L, Lexes d L := by
+  intro n
+  induction n with
+  | zero =>
+    intro d hd
+    have : d = [] := by cases d <;> simp_all
+    subst this
+    exact ⟨[], Lexes.done (by simp [lexOne, readId])⟩
+  | succ n ih =>
+    intro d hd
+    cases hl : lexOne d with
+    | none => exact ⟨[], Lexes.done hl⟩
+    | some p =>
+      obtain ⟨x, r⟩ := p
+      have := lexOne_shrinks hl
+      obtain ⟨L, hL⟩ := ih r (by omega)
+      exact ⟨x :: L, Lexes.cons hl hL⟩
+
+/-- … and only one -/
+theorem Lexes.unique {d : Bytes} {L1 L2 : List Lx} (h1 : Lexes d L1) (h2 : Lexes d L2) : L1 = L2 := by
+  induction h1 generalizing L2 with
+  | done h =>
+    cases h2 with
+    | done _ => rfl
+    | cons h' _ => rw [h] at h'; cases h'
+  | cons h _ ih =>
+    cases h2 with
+    | done h' => rw [h] at h'; cases h'
+    | cons h' hr => rw [h] at h'; cases h'; rw [ih hr]
+
 end Jomini.BinTape
